@@ -119,6 +119,8 @@ class XGBoostSampler(MLSurrogateSampler):
             "Found loss values out of float32 limits, clipping them for XGBoost.",
             RuntimeWarning,
         )
+        # clip a copy: the caller's array is the calibration history and must not change
+        y = np.array(y, dtype=np.float64, copy=True)
         if len(large_floats) > 0:
             y[large_floats] = MAX_FLOAT32 - EPS_FLOAT32
 
